@@ -114,9 +114,9 @@ func diffCases(r *vf.Run, groupMode bool) []diffCase {
 		}
 		cases = append(cases, diffCase{id: fmt.Sprintf("bnd%d", n), rows: n})
 	}
-	nr := r.Pick(20, 120)
+	nr := r.Pick(20, 500)
 	if groupMode {
-		nr = r.Pick(30, 160)
+		nr = r.Pick(30, 600)
 	}
 	for i := 0; i < nr; i++ {
 		var n int
@@ -217,6 +217,13 @@ func genQueries(r *vf.Run, rng *rand.Rand, ds *gen.Dataset, n int, groupMode boo
 			}
 			qs = append(qs, genQuery{id: fmt.Sprintf("notleaf%d", i), e: oracle.Not(gen.Leaf(rng, ds, []string{c}))})
 		}
+		// every operand count from 1 to 70 (and a few around powers of two) once per dataset
+		for _, n := range append(seqInts(1, 70), 127, 128, 129, 255, 256, 257) {
+			if n > 70 && !r.Thorough() && n != 256 {
+				continue
+			}
+			qs = append(qs, genQuery{id: fmt.Sprintf("arity%d", n), e: gen.Wide(rng, ds, cols, n)})
+		}
 		ul := gen.Leaf(rng, ds, cols[:1])
 		qs = append(qs, genQuery{id: "universe", e: oracle.Or(ul, oracle.Not(ul))})
 	} else {
@@ -287,7 +294,7 @@ func runDiff(r *vf.Run, groupMode bool) {
 		ids = append(ids, c.id)
 		byID[c.id] = c
 	}
-	nq := r.Pick(60, 90)
+	nq := r.Pick(60, 120)
 	r.ForEach(ids, 12, func(id string) {
 		c := byID[id]
 		rng := r.RNG("ds/" + id)
